@@ -41,12 +41,12 @@ var apiPairs = map[string]string{
 }
 
 type twinNorm struct {
-	info  *types.Info
-	opts  twinOpts
-	names map[types.Object]string
-	out   []string
-	pos   []token.Pos
-	drop  map[types.Object]bool
+	info    *types.Info
+	opts    twinOpts
+	names   map[types.Object]string
+	out     []string
+	pos     []token.Pos
+	drop    map[types.Object]bool
 	skipArg map[types.Object]bool
 }
 
